@@ -19,7 +19,7 @@ Definition krel {T} (k : T -> R) (k' : T -> R') : Prop := forall v, h (k v) = k'
 Lemma bool_k_nat v k k' : krel k k' -> h (bool_k O R err v k) = bool_k O R' err' v k'.
 Proof. intros Hk. destruct v; simpl; auto. destruct (qeqb O q 0); auto. Qed.
 Lemma arith_k_nat o a b k k' : krel k k' -> h (arith_k O R err o a b k) = arith_k O R' err' o a b k'.
-Proof. intros Hk. destruct a, b; simpl; auto. destruct o; auto. destruct (qeqb O q0 0); auto. Qed.
+Proof. intros Hk. destruct a, b; simpl; auto; destruct o; auto. destruct (qeqb O q0 0); auto. Qed.
 Lemma veq_k_nat a b k k' : krel k k' -> h (veq_k O R err a b k) = veq_k O R' err' a b k'.
 Proof. intros Hk. destruct a, b; simpl; auto. destruct (qeqb O q q0); auto. Qed.
 Lemma cmp_k_nat o a b k k' : krel k k' -> h (cmp_k O R err o a b k) = cmp_k O R' err' o a b k'.
